@@ -6,7 +6,8 @@ Import ListNotations.
 From KD Require Import C11.Model C11.Spec.
 Open Scope Z_scope.
 
-(* one np.random.default_rng(seed=...) call observed by the harness: its seed argument, the draws made on
+(* one generator created by the wrapper (np.random.default_rng(seed + idx), or GlobalRng() when there is no seed: oc_seed
+   None) as observed by the harness: its seed argument, the draws made on
    it, and the calls made to the wrapped dataset by the getitem_xclass invocation that created it *)
 Record ocall := { oc_seed : option Z; oc_draws : list draw; oc_loads : list load;
                   oc_ctx : list load   (* the loads that were handed the context object the request returned *) }.
